@@ -655,6 +655,11 @@ def _c16_cli_ends(chk, thorough):
         env = dict(os.environ, NO_COLOR="1", XDG_CACHE_HOME=cache, HOME=d, TERM="xterm")
         p = ptydrive.Pty([vlib.LACE_BIN, "debug", "--minimal", src], env)
         seen = p.read_until(ptydrive.at_prompt, limit=30.0)
+        if not seen and kind != "regular":
+            # a loaded machine must not turn into a verdict: once more, with a long limit
+            p.finish(grace=0.5)
+            p = ptydrive.Pty([vlib.LACE_BIN, "debug", "--minimal", src], env)
+            seen = p.read_until(ptydrive.at_prompt, limit=90.0)
         if kind == "regular" and not seen:
             p.finish(grace=0.5)
             raise vlib.ToolError("the debugger's prompt never appeared on the pseudo terminal")
